@@ -70,4 +70,16 @@ mutual
 end
 
 
+mutual
+  /-- Does the subtree contain a node that is MISSING but neither visible nor aliased?  The writer
+  prints such a node (`(MISSING _name)`) although no navigation function can reach it. -/
+  def hasHiddenMissing (lang : Lang) : Tree → Nat → Bool
+    | .mk d kids, al => (d.isMissing && !(d.visible || al != 0)) || hasHiddenMissingKids lang kids d.productionId 0
+  def hasHiddenMissingKids (lang : Lang) : List Tree → Nat → Nat → Bool
+    | [], _, _ => false
+    | c :: rest, pid, si =>
+      hasHiddenMissing lang c (if c.data.extra then 0 else lang.aliasAt pid si) ||
+        hasHiddenMissingKids lang rest pid (if c.data.extra then si else si + 1)
+end
+
 end TsVerif.C06
